@@ -340,6 +340,8 @@ package snaps
 //@   ensures [updated] len(values) > 0 && dUpd == 1 ==> true && hit && mayUpdate && stored != snap
 //@   ensures [equal_nowrite] len(values) > 0 && true && hit && stored == snap ==> nowrite
 //@   ensures [locks] held[_m] == 0 && held[testsRegistry.Mutex] == 0 && held[testEvents.Mutex] == 0
+//@   ensures [config_immutable] (forall r Ref: old(alloc)[r] ==> heap(Config.filename)[r] == old(heap(Config.filename))[r] && heap(Config.snapsDir)[r] == old(heap(Config.snapsDir))[r] && heap(Config.extension)[r] == old(heap(Config.extension))[r] && heap(Config.update)[r] == old(heap(Config.update))[r] && heap(Config.json)[r] == old(heap(Config.json))[r])
+//@   ensures [config_pointees] (c.update != nil ==> *c.update == old(*c.update)) && (c.json != nil ==> c.json.Width == old(c.json.Width) && c.json.Indent == old(c.json.Indent) && c.json.SortKeys == old(c.json.SortKeys))
 //@
 //@ func matchJSON$1()
 //@   mode ctl
@@ -405,6 +407,8 @@ package snaps
 //@   ensures [updated] true && dUpd == 1 ==> okIn && hit && mayUpdate && stored != snap
 //@   ensures [equal_nowrite] true && okIn && hit && stored == snap ==> nowrite
 //@   ensures [locks] held[_m] == 0 && held[testsRegistry.Mutex] == 0 && held[testEvents.Mutex] == 0
+//@   ensures [config_immutable] (forall r Ref: old(alloc)[r] ==> heap(Config.filename)[r] == old(heap(Config.filename))[r] && heap(Config.snapsDir)[r] == old(heap(Config.snapsDir))[r] && heap(Config.extension)[r] == old(heap(Config.extension))[r] && heap(Config.update)[r] == old(heap(Config.update))[r] && heap(Config.json)[r] == old(heap(Config.json))[r])
+//@   ensures [config_pointees] (c.update != nil ==> *c.update == old(*c.update)) && (c.json != nil ==> c.json.Width == old(c.json.Width) && c.json.Indent == old(c.json.Indent) && c.json.SortKeys == old(c.json.SortKeys))
 //@
 //@ func matchYAML$1()
 //@   mode ctl
@@ -470,6 +474,8 @@ package snaps
 //@   ensures [updated] true && dUpd == 1 ==> okIn && hit && mayUpdate && stored != snap
 //@   ensures [equal_nowrite] true && okIn && hit && stored == snap ==> nowrite
 //@   ensures [locks] held[_m] == 0 && held[testsRegistry.Mutex] == 0 && held[testEvents.Mutex] == 0
+//@   ensures [config_immutable] (forall r Ref: old(alloc)[r] ==> heap(Config.filename)[r] == old(heap(Config.filename))[r] && heap(Config.snapsDir)[r] == old(heap(Config.snapsDir))[r] && heap(Config.extension)[r] == old(heap(Config.extension))[r] && heap(Config.update)[r] == old(heap(Config.update))[r] && heap(Config.json)[r] == old(heap(Config.json))[r])
+//@   ensures [config_pointees] (c.update != nil ==> *c.update == old(*c.update)) && (c.json != nil ==> c.json.Width == old(c.json.Width) && c.json.Indent == old(c.json.Indent) && c.json.SortKeys == old(c.json.SortKeys))
 //@
 //@ func matchStandaloneSnapshot$1()
 //@   mode ctl
@@ -523,6 +529,8 @@ package snaps
 //@   ensures [created] dAdd == 1 ==> true && !hit && mayCreate && fsx[sp] && fsc[sp] == snap
 //@   ensures [updated] dUpd == 1 ==> true && hit && mayUpdate && stored != snap && fsx[sp] && fsc[sp] == snap
 //@   ensures [locks] held[standaloneTestsRegistry.Mutex] == 0 && held[testEvents.Mutex] == 0
+//@   ensures [config_immutable] (forall r Ref: old(alloc)[r] ==> heap(Config.filename)[r] == old(heap(Config.filename))[r] && heap(Config.snapsDir)[r] == old(heap(Config.snapsDir))[r] && heap(Config.extension)[r] == old(heap(Config.extension))[r] && heap(Config.update)[r] == old(heap(Config.update))[r] && heap(Config.json)[r] == old(heap(Config.json))[r])
+//@   ensures [config_pointees] (c.update != nil ==> *c.update == old(*c.update)) && (c.json != nil ==> c.json.Width == old(c.json.Width) && c.json.Indent == old(c.json.Indent) && c.json.SortKeys == old(c.json.SortKeys))
 //@
 //@ func matchStandaloneJSON$1()
 //@   mode ctl
@@ -583,5 +591,545 @@ package snaps
 //@   ensures [created] dAdd == 1 ==> okIn && !hit && mayCreate && fsx[sp] && fsc[sp] == snap
 //@   ensures [updated] dUpd == 1 ==> okIn && hit && mayUpdate && stored != snap && fsx[sp] && fsc[sp] == snap
 //@   ensures [locks] held[standaloneTestsRegistry.Mutex] == 0 && held[testEvents.Mutex] == 0
+//@   ensures [config_immutable] (forall r Ref: old(alloc)[r] ==> heap(Config.filename)[r] == old(heap(Config.filename))[r] && heap(Config.snapsDir)[r] == old(heap(Config.snapsDir))[r] && heap(Config.extension)[r] == old(heap(Config.extension))[r] && heap(Config.update)[r] == old(heap(Config.update))[r] && heap(Config.json)[r] == old(heap(Config.json))[r])
+//@   ensures [config_pointees] (c.update != nil ==> *c.update == old(*c.update)) && (c.json != nil ==> c.json.Width == old(c.json.Width) && c.json.Indent == old(c.json.Indent) && c.json.SortKeys == old(c.json.SortKeys))
+//@
+// ---- exported entry points (same contracts as the bodies they wrap) ----
+//@ func MatchSnapshot(t, values)
+//@   mode ctl
+//@   let c = defaultConfig
+//@   requires c != nil && t != nil
+//@   requires testEvents != nil && testEvents.items != nil
+//@   requires held[_m] == 0 && held[testEvents.Mutex] == 0
+//@   requires isLine(tname(t)) && !quiescent
+//@   let mayCreate = !isCI && (c.update == nil || *c.update)
+//@   let mayUpdate = !isCI && ((c.update != nil && *c.update) || (c.update == nil && updateVAR == "true"))
+//@   let dErr = nErr[t] - old(nErr[t])
+//@   let dLog = nLog[t] - old(nLog[t])
+//@   let dFail = testEvents.items[erred] - old(testEvents.items[erred])
+//@   let dAdd = testEvents.items[added] - old(testEvents.items[added])
+//@   let dUpd = testEvents.items[updated] - old(testEvents.items[updated])
+//@   let dPass = testEvents.items[passed] - old(testEvents.items[passed])
+//@   let failed = dErr == 1 && dLog == 0 && dFail == 1 && dAdd == 0 && dUpd == 0 && dPass == 0
+//@   let nowrite = fswrites == old(fswrites) && fsc[sp] == old(fsc[sp]) && fsx[sp] == old(fsx[sp])
+//@   requires testsRegistry != nil && testsRegistry.running != nil && testsRegistry.cleanup != nil && testsRegistry.running != testsRegistry.cleanup
+//@   requires held[testsRegistry.Mutex] == 0
+//@   requires testsRegistry.Mutex != testEvents.Mutex && testsRegistry.Mutex != _m && testEvents.Mutex != _m
+//@   let sp = snapPathSpec(c.snapsDir, c.filename, c.extension, tname(t), false, isTrimBathBuild, callerFile())
+//@   requires has(testsRegistry.running, sp) == has(testsRegistry.cleanup, sp)
+//@   requires has(testsRegistry.running, sp) ==> testsRegistry.running[sp] != nil && testsRegistry.cleanup[sp] != nil && testsRegistry.running[sp] != testsRegistry.cleanup[sp]
+//@   requires fsguard[sp] == _m
+//@   let k = old(testsRegistry.running[sp][tname(t)]) + 1
+//@   let id = fmtID(tname(t), k)
+//@   let F = old(fsc[sp])
+//@   let hit = old(fsx[sp]) && found(old(fsc[sp]), id)
+//@   let stored = body(F, id)
+//@   let ordinalTaken = testsRegistry.running[sp][tname(t)] == k && testsRegistry.cleanup[sp][tname(t)] == old(testsRegistry.cleanup[sp][tname(t)]) + 1
+//@   let snap = takeSnapshot(values)
+//@   assigns nErr[t], lastErr[t], nLog[t], lastLog[t], nCleanup[t], lastCleanup[t]
+//@   assigns testEvents.items[erred], testEvents.items[added], testEvents.items[updated], testEvents.items[passed]
+//@   assigns testsRegistry.running[sp], testsRegistry.cleanup[sp], testsRegistry.running[sp][tname(t)], testsRegistry.cleanup[sp][tname(t)]
+//@   assigns fsx[sp], fsc[sp], fsdir, fswrites, alloc
+//@   ensures [nocall] len(values) == 0 ==> dErr == 0 && dLog == 1 && nowrite && dFail == 0 && dAdd == 0 && dUpd == 0 && dPass == 0
+//@   ensures [ordinal] len(values) > 0 ==> ordinalTaken
+//@   ensures [one_outcome] len(values) > 0 ==>
+//@        failed
+//@     || (dErr == 0 && dLog == 1 && lastLog[t] == box(addedMsg) && dFail == 0 && dAdd == 1 && dUpd == 0 && dPass == 0)
+//@     || (dErr == 0 && dLog == 1 && lastLog[t] == box(updatedMsg) && dFail == 0 && dAdd == 0 && dUpd == 1 && dPass == 0)
+//@     || (dErr == 0 && dLog == 0 && dFail == 0 && dAdd == 0 && dUpd == 0 && dPass == 1)
+//@   ensures [replay] len(values) > 0 && true && hit && stored == snap ==> dPass == 1 && dErr == 0 && dLog == 0 && nowrite && fsx[sp]
+//@   ensures [mismatch] len(values) > 0 && true && hit && stored != snap && noEND(stored) && !mayUpdate ==> failed && nowrite
+//@   ensures [missing_ro] len(values) > 0 && true && !hit && !mayCreate ==> failed && nowrite
+//@   ensures [ci] isCI ==> nowrite && dAdd == 0 && dUpd == 0
+//@   ensures [created] len(values) > 0 && dAdd == 1 ==> true && !hit && mayCreate && fsx[sp] && fsc[sp] == (old(fsx[sp]) ? F : "") + "\n" + id + "\n" + snap + "\n---\n"
+//@   ensures [updated] len(values) > 0 && dUpd == 1 ==> true && hit && mayUpdate && stored != snap
+//@   ensures [equal_nowrite] len(values) > 0 && true && hit && stored == snap ==> nowrite
+//@   ensures [locks] held[_m] == 0 && held[testsRegistry.Mutex] == 0 && held[testEvents.Mutex] == 0
+//@   ensures [config_immutable] (forall r Ref: old(alloc)[r] ==> heap(Config.filename)[r] == old(heap(Config.filename))[r] && heap(Config.snapsDir)[r] == old(heap(Config.snapsDir))[r] && heap(Config.extension)[r] == old(heap(Config.extension))[r] && heap(Config.update)[r] == old(heap(Config.update))[r] && heap(Config.json)[r] == old(heap(Config.json))[r])
+//@   ensures [config_pointees] (c.update != nil ==> *c.update == old(*c.update)) && (c.json != nil ==> c.json.Width == old(c.json.Width) && c.json.Indent == old(c.json.Indent) && c.json.SortKeys == old(c.json.SortKeys))
+//@
+//@ func (*Config).MatchSnapshot(c, t, values)
+//@   mode ctl
+//@   requires c != nil && t != nil
+//@   requires testEvents != nil && testEvents.items != nil
+//@   requires held[_m] == 0 && held[testEvents.Mutex] == 0
+//@   requires isLine(tname(t)) && !quiescent
+//@   let mayCreate = !isCI && (c.update == nil || *c.update)
+//@   let mayUpdate = !isCI && ((c.update != nil && *c.update) || (c.update == nil && updateVAR == "true"))
+//@   let dErr = nErr[t] - old(nErr[t])
+//@   let dLog = nLog[t] - old(nLog[t])
+//@   let dFail = testEvents.items[erred] - old(testEvents.items[erred])
+//@   let dAdd = testEvents.items[added] - old(testEvents.items[added])
+//@   let dUpd = testEvents.items[updated] - old(testEvents.items[updated])
+//@   let dPass = testEvents.items[passed] - old(testEvents.items[passed])
+//@   let failed = dErr == 1 && dLog == 0 && dFail == 1 && dAdd == 0 && dUpd == 0 && dPass == 0
+//@   let nowrite = fswrites == old(fswrites) && fsc[sp] == old(fsc[sp]) && fsx[sp] == old(fsx[sp])
+//@   requires testsRegistry != nil && testsRegistry.running != nil && testsRegistry.cleanup != nil && testsRegistry.running != testsRegistry.cleanup
+//@   requires held[testsRegistry.Mutex] == 0
+//@   requires testsRegistry.Mutex != testEvents.Mutex && testsRegistry.Mutex != _m && testEvents.Mutex != _m
+//@   let sp = snapPathSpec(c.snapsDir, c.filename, c.extension, tname(t), false, isTrimBathBuild, callerFile())
+//@   requires has(testsRegistry.running, sp) == has(testsRegistry.cleanup, sp)
+//@   requires has(testsRegistry.running, sp) ==> testsRegistry.running[sp] != nil && testsRegistry.cleanup[sp] != nil && testsRegistry.running[sp] != testsRegistry.cleanup[sp]
+//@   requires fsguard[sp] == _m
+//@   let k = old(testsRegistry.running[sp][tname(t)]) + 1
+//@   let id = fmtID(tname(t), k)
+//@   let F = old(fsc[sp])
+//@   let hit = old(fsx[sp]) && found(old(fsc[sp]), id)
+//@   let stored = body(F, id)
+//@   let ordinalTaken = testsRegistry.running[sp][tname(t)] == k && testsRegistry.cleanup[sp][tname(t)] == old(testsRegistry.cleanup[sp][tname(t)]) + 1
+//@   let snap = takeSnapshot(values)
+//@   assigns nErr[t], lastErr[t], nLog[t], lastLog[t], nCleanup[t], lastCleanup[t]
+//@   assigns testEvents.items[erred], testEvents.items[added], testEvents.items[updated], testEvents.items[passed]
+//@   assigns testsRegistry.running[sp], testsRegistry.cleanup[sp], testsRegistry.running[sp][tname(t)], testsRegistry.cleanup[sp][tname(t)]
+//@   assigns fsx[sp], fsc[sp], fsdir, fswrites, alloc
+//@   ensures [nocall] len(values) == 0 ==> dErr == 0 && dLog == 1 && nowrite && dFail == 0 && dAdd == 0 && dUpd == 0 && dPass == 0
+//@   ensures [ordinal] len(values) > 0 ==> ordinalTaken
+//@   ensures [one_outcome] len(values) > 0 ==>
+//@        failed
+//@     || (dErr == 0 && dLog == 1 && lastLog[t] == box(addedMsg) && dFail == 0 && dAdd == 1 && dUpd == 0 && dPass == 0)
+//@     || (dErr == 0 && dLog == 1 && lastLog[t] == box(updatedMsg) && dFail == 0 && dAdd == 0 && dUpd == 1 && dPass == 0)
+//@     || (dErr == 0 && dLog == 0 && dFail == 0 && dAdd == 0 && dUpd == 0 && dPass == 1)
+//@   ensures [replay] len(values) > 0 && true && hit && stored == snap ==> dPass == 1 && dErr == 0 && dLog == 0 && nowrite && fsx[sp]
+//@   ensures [mismatch] len(values) > 0 && true && hit && stored != snap && noEND(stored) && !mayUpdate ==> failed && nowrite
+//@   ensures [missing_ro] len(values) > 0 && true && !hit && !mayCreate ==> failed && nowrite
+//@   ensures [ci] isCI ==> nowrite && dAdd == 0 && dUpd == 0
+//@   ensures [created] len(values) > 0 && dAdd == 1 ==> true && !hit && mayCreate && fsx[sp] && fsc[sp] == (old(fsx[sp]) ? F : "") + "\n" + id + "\n" + snap + "\n---\n"
+//@   ensures [updated] len(values) > 0 && dUpd == 1 ==> true && hit && mayUpdate && stored != snap
+//@   ensures [equal_nowrite] len(values) > 0 && true && hit && stored == snap ==> nowrite
+//@   ensures [locks] held[_m] == 0 && held[testsRegistry.Mutex] == 0 && held[testEvents.Mutex] == 0
+//@   ensures [config_immutable] (forall r Ref: old(alloc)[r] ==> heap(Config.filename)[r] == old(heap(Config.filename))[r] && heap(Config.snapsDir)[r] == old(heap(Config.snapsDir))[r] && heap(Config.extension)[r] == old(heap(Config.extension))[r] && heap(Config.update)[r] == old(heap(Config.update))[r] && heap(Config.json)[r] == old(heap(Config.json))[r])
+//@   ensures [config_pointees] (c.update != nil ==> *c.update == old(*c.update)) && (c.json != nil ==> c.json.Width == old(c.json.Width) && c.json.Indent == old(c.json.Indent) && c.json.SortKeys == old(c.json.SortKeys))
+//@
+//@ func MatchJSON(t, input, matchers)
+//@   mode ctl
+//@   let c = defaultConfig
+//@   requires c != nil && t != nil
+//@   requires testEvents != nil && testEvents.items != nil
+//@   requires held[_m] == 0 && held[testEvents.Mutex] == 0
+//@   requires isLine(tname(t)) && !quiescent
+//@   let mayCreate = !isCI && (c.update == nil || *c.update)
+//@   let mayUpdate = !isCI && ((c.update != nil && *c.update) || (c.update == nil && updateVAR == "true"))
+//@   let dErr = nErr[t] - old(nErr[t])
+//@   let dLog = nLog[t] - old(nLog[t])
+//@   let dFail = testEvents.items[erred] - old(testEvents.items[erred])
+//@   let dAdd = testEvents.items[added] - old(testEvents.items[added])
+//@   let dUpd = testEvents.items[updated] - old(testEvents.items[updated])
+//@   let dPass = testEvents.items[passed] - old(testEvents.items[passed])
+//@   let failed = dErr == 1 && dLog == 0 && dFail == 1 && dAdd == 0 && dUpd == 0 && dPass == 0
+//@   let nowrite = fswrites == old(fswrites) && fsc[sp] == old(fsc[sp]) && fsx[sp] == old(fsx[sp])
+//@   requires testsRegistry != nil && testsRegistry.running != nil && testsRegistry.cleanup != nil && testsRegistry.running != testsRegistry.cleanup
+//@   requires held[testsRegistry.Mutex] == 0
+//@   requires testsRegistry.Mutex != testEvents.Mutex && testsRegistry.Mutex != _m && testEvents.Mutex != _m
+//@   let sp = snapPathSpec(c.snapsDir, c.filename, c.extension, tname(t), false, isTrimBathBuild, callerFile())
+//@   requires has(testsRegistry.running, sp) == has(testsRegistry.cleanup, sp)
+//@   requires has(testsRegistry.running, sp) ==> testsRegistry.running[sp] != nil && testsRegistry.cleanup[sp] != nil && testsRegistry.running[sp] != testsRegistry.cleanup[sp]
+//@   requires fsguard[sp] == _m
+//@   let k = old(testsRegistry.running[sp][tname(t)]) + 1
+//@   let id = fmtID(tname(t), k)
+//@   let F = old(fsc[sp])
+//@   let hit = old(fsx[sp]) && found(old(fsc[sp]), id)
+//@   let stored = body(F, id)
+//@   let ordinalTaken = testsRegistry.running[sp][tname(t)] == k && testsRegistry.cleanup[sp][tname(t)] == old(testsRegistry.cleanup[sp][tname(t)]) + 1
+//@   let valid = vjErrOf(input) == nil
+//@   let doc = applyJ(vjBytesOf(input), arr(matchers), len(matchers))
+//@   let nme = nerrJ(vjBytesOf(input), arr(matchers), len(matchers))
+//@   let okIn = valid && nme == 0
+//@   let snap = jsonSnapOf(doc, c.json == nil, c.json.Width, c.json.Indent, c.json.SortKeys)
+//@   assigns nErr[t], lastErr[t], nLog[t], lastLog[t], nCleanup[t], lastCleanup[t]
+//@   assigns testEvents.items[erred], testEvents.items[added], testEvents.items[updated], testEvents.items[passed]
+//@   assigns testsRegistry.running[sp], testsRegistry.cleanup[sp], testsRegistry.running[sp][tname(t)], testsRegistry.cleanup[sp][tname(t)]
+//@   assigns fsx[sp], fsc[sp], fsdir, fswrites, alloc
+//@   ensures [invalid] !valid ==> failed && nowrite && ordinalTaken
+//@   ensures [matcher_errors] valid && nme > 0 ==> failed && nowrite && ordinalTaken
+//@   ensures [ordinal] true ==> ordinalTaken
+//@   ensures [one_outcome] true ==>
+//@        failed
+//@     || (dErr == 0 && dLog == 1 && lastLog[t] == box(addedMsg) && dFail == 0 && dAdd == 1 && dUpd == 0 && dPass == 0)
+//@     || (dErr == 0 && dLog == 1 && lastLog[t] == box(updatedMsg) && dFail == 0 && dAdd == 0 && dUpd == 1 && dPass == 0)
+//@     || (dErr == 0 && dLog == 0 && dFail == 0 && dAdd == 0 && dUpd == 0 && dPass == 1)
+//@   ensures [replay] true && okIn && hit && stored == snap ==> dPass == 1 && dErr == 0 && dLog == 0 && nowrite && fsx[sp]
+//@   ensures [mismatch] true && okIn && hit && stored != snap &&  !mayUpdate ==> failed && nowrite
+//@   ensures [missing_ro] true && okIn && !hit && !mayCreate ==> failed && nowrite
+//@   ensures [ci] isCI ==> nowrite && dAdd == 0 && dUpd == 0
+//@   ensures [created] true && dAdd == 1 ==> okIn && !hit && mayCreate && fsx[sp] && fsc[sp] == (old(fsx[sp]) ? F : "") + "\n" + id + "\n" + snap + "\n---\n"
+//@   ensures [updated] true && dUpd == 1 ==> okIn && hit && mayUpdate && stored != snap
+//@   ensures [equal_nowrite] true && okIn && hit && stored == snap ==> nowrite
+//@   ensures [locks] held[_m] == 0 && held[testsRegistry.Mutex] == 0 && held[testEvents.Mutex] == 0
+//@   ensures [config_immutable] (forall r Ref: old(alloc)[r] ==> heap(Config.filename)[r] == old(heap(Config.filename))[r] && heap(Config.snapsDir)[r] == old(heap(Config.snapsDir))[r] && heap(Config.extension)[r] == old(heap(Config.extension))[r] && heap(Config.update)[r] == old(heap(Config.update))[r] && heap(Config.json)[r] == old(heap(Config.json))[r])
+//@   ensures [config_pointees] (c.update != nil ==> *c.update == old(*c.update)) && (c.json != nil ==> c.json.Width == old(c.json.Width) && c.json.Indent == old(c.json.Indent) && c.json.SortKeys == old(c.json.SortKeys))
+//@
+//@ func (*Config).MatchJSON(c, t, input, matchers)
+//@   mode ctl
+//@   requires c != nil && t != nil
+//@   requires testEvents != nil && testEvents.items != nil
+//@   requires held[_m] == 0 && held[testEvents.Mutex] == 0
+//@   requires isLine(tname(t)) && !quiescent
+//@   let mayCreate = !isCI && (c.update == nil || *c.update)
+//@   let mayUpdate = !isCI && ((c.update != nil && *c.update) || (c.update == nil && updateVAR == "true"))
+//@   let dErr = nErr[t] - old(nErr[t])
+//@   let dLog = nLog[t] - old(nLog[t])
+//@   let dFail = testEvents.items[erred] - old(testEvents.items[erred])
+//@   let dAdd = testEvents.items[added] - old(testEvents.items[added])
+//@   let dUpd = testEvents.items[updated] - old(testEvents.items[updated])
+//@   let dPass = testEvents.items[passed] - old(testEvents.items[passed])
+//@   let failed = dErr == 1 && dLog == 0 && dFail == 1 && dAdd == 0 && dUpd == 0 && dPass == 0
+//@   let nowrite = fswrites == old(fswrites) && fsc[sp] == old(fsc[sp]) && fsx[sp] == old(fsx[sp])
+//@   requires testsRegistry != nil && testsRegistry.running != nil && testsRegistry.cleanup != nil && testsRegistry.running != testsRegistry.cleanup
+//@   requires held[testsRegistry.Mutex] == 0
+//@   requires testsRegistry.Mutex != testEvents.Mutex && testsRegistry.Mutex != _m && testEvents.Mutex != _m
+//@   let sp = snapPathSpec(c.snapsDir, c.filename, c.extension, tname(t), false, isTrimBathBuild, callerFile())
+//@   requires has(testsRegistry.running, sp) == has(testsRegistry.cleanup, sp)
+//@   requires has(testsRegistry.running, sp) ==> testsRegistry.running[sp] != nil && testsRegistry.cleanup[sp] != nil && testsRegistry.running[sp] != testsRegistry.cleanup[sp]
+//@   requires fsguard[sp] == _m
+//@   let k = old(testsRegistry.running[sp][tname(t)]) + 1
+//@   let id = fmtID(tname(t), k)
+//@   let F = old(fsc[sp])
+//@   let hit = old(fsx[sp]) && found(old(fsc[sp]), id)
+//@   let stored = body(F, id)
+//@   let ordinalTaken = testsRegistry.running[sp][tname(t)] == k && testsRegistry.cleanup[sp][tname(t)] == old(testsRegistry.cleanup[sp][tname(t)]) + 1
+//@   let valid = vjErrOf(input) == nil
+//@   let doc = applyJ(vjBytesOf(input), arr(matchers), len(matchers))
+//@   let nme = nerrJ(vjBytesOf(input), arr(matchers), len(matchers))
+//@   let okIn = valid && nme == 0
+//@   let snap = jsonSnapOf(doc, c.json == nil, c.json.Width, c.json.Indent, c.json.SortKeys)
+//@   assigns nErr[t], lastErr[t], nLog[t], lastLog[t], nCleanup[t], lastCleanup[t]
+//@   assigns testEvents.items[erred], testEvents.items[added], testEvents.items[updated], testEvents.items[passed]
+//@   assigns testsRegistry.running[sp], testsRegistry.cleanup[sp], testsRegistry.running[sp][tname(t)], testsRegistry.cleanup[sp][tname(t)]
+//@   assigns fsx[sp], fsc[sp], fsdir, fswrites, alloc
+//@   ensures [invalid] !valid ==> failed && nowrite && ordinalTaken
+//@   ensures [matcher_errors] valid && nme > 0 ==> failed && nowrite && ordinalTaken
+//@   ensures [ordinal] true ==> ordinalTaken
+//@   ensures [one_outcome] true ==>
+//@        failed
+//@     || (dErr == 0 && dLog == 1 && lastLog[t] == box(addedMsg) && dFail == 0 && dAdd == 1 && dUpd == 0 && dPass == 0)
+//@     || (dErr == 0 && dLog == 1 && lastLog[t] == box(updatedMsg) && dFail == 0 && dAdd == 0 && dUpd == 1 && dPass == 0)
+//@     || (dErr == 0 && dLog == 0 && dFail == 0 && dAdd == 0 && dUpd == 0 && dPass == 1)
+//@   ensures [replay] true && okIn && hit && stored == snap ==> dPass == 1 && dErr == 0 && dLog == 0 && nowrite && fsx[sp]
+//@   ensures [mismatch] true && okIn && hit && stored != snap &&  !mayUpdate ==> failed && nowrite
+//@   ensures [missing_ro] true && okIn && !hit && !mayCreate ==> failed && nowrite
+//@   ensures [ci] isCI ==> nowrite && dAdd == 0 && dUpd == 0
+//@   ensures [created] true && dAdd == 1 ==> okIn && !hit && mayCreate && fsx[sp] && fsc[sp] == (old(fsx[sp]) ? F : "") + "\n" + id + "\n" + snap + "\n---\n"
+//@   ensures [updated] true && dUpd == 1 ==> okIn && hit && mayUpdate && stored != snap
+//@   ensures [equal_nowrite] true && okIn && hit && stored == snap ==> nowrite
+//@   ensures [locks] held[_m] == 0 && held[testsRegistry.Mutex] == 0 && held[testEvents.Mutex] == 0
+//@   ensures [config_immutable] (forall r Ref: old(alloc)[r] ==> heap(Config.filename)[r] == old(heap(Config.filename))[r] && heap(Config.snapsDir)[r] == old(heap(Config.snapsDir))[r] && heap(Config.extension)[r] == old(heap(Config.extension))[r] && heap(Config.update)[r] == old(heap(Config.update))[r] && heap(Config.json)[r] == old(heap(Config.json))[r])
+//@   ensures [config_pointees] (c.update != nil ==> *c.update == old(*c.update)) && (c.json != nil ==> c.json.Width == old(c.json.Width) && c.json.Indent == old(c.json.Indent) && c.json.SortKeys == old(c.json.SortKeys))
+//@
+//@ func MatchYAML(t, input, matchers)
+//@   mode ctl
+//@   let c = defaultConfig
+//@   requires c != nil && t != nil
+//@   requires testEvents != nil && testEvents.items != nil
+//@   requires held[_m] == 0 && held[testEvents.Mutex] == 0
+//@   requires isLine(tname(t)) && !quiescent
+//@   let mayCreate = !isCI && (c.update == nil || *c.update)
+//@   let mayUpdate = !isCI && ((c.update != nil && *c.update) || (c.update == nil && updateVAR == "true"))
+//@   let dErr = nErr[t] - old(nErr[t])
+//@   let dLog = nLog[t] - old(nLog[t])
+//@   let dFail = testEvents.items[erred] - old(testEvents.items[erred])
+//@   let dAdd = testEvents.items[added] - old(testEvents.items[added])
+//@   let dUpd = testEvents.items[updated] - old(testEvents.items[updated])
+//@   let dPass = testEvents.items[passed] - old(testEvents.items[passed])
+//@   let failed = dErr == 1 && dLog == 0 && dFail == 1 && dAdd == 0 && dUpd == 0 && dPass == 0
+//@   let nowrite = fswrites == old(fswrites) && fsc[sp] == old(fsc[sp]) && fsx[sp] == old(fsx[sp])
+//@   requires testsRegistry != nil && testsRegistry.running != nil && testsRegistry.cleanup != nil && testsRegistry.running != testsRegistry.cleanup
+//@   requires held[testsRegistry.Mutex] == 0
+//@   requires testsRegistry.Mutex != testEvents.Mutex && testsRegistry.Mutex != _m && testEvents.Mutex != _m
+//@   let sp = snapPathSpec(c.snapsDir, c.filename, c.extension, tname(t), false, isTrimBathBuild, callerFile())
+//@   requires has(testsRegistry.running, sp) == has(testsRegistry.cleanup, sp)
+//@   requires has(testsRegistry.running, sp) ==> testsRegistry.running[sp] != nil && testsRegistry.cleanup[sp] != nil && testsRegistry.running[sp] != testsRegistry.cleanup[sp]
+//@   requires fsguard[sp] == _m
+//@   let k = old(testsRegistry.running[sp][tname(t)]) + 1
+//@   let id = fmtID(tname(t), k)
+//@   let F = old(fsc[sp])
+//@   let hit = old(fsx[sp]) && found(old(fsc[sp]), id)
+//@   let stored = body(F, id)
+//@   let ordinalTaken = testsRegistry.running[sp][tname(t)] == k && testsRegistry.cleanup[sp][tname(t)] == old(testsRegistry.cleanup[sp][tname(t)]) + 1
+//@   let valid = vyOK(input)
+//@   let doc = applyY(vyBytesOf(input), arr(matchers), len(matchers))
+//@   let nme = nerrY(vyBytesOf(input), arr(matchers), len(matchers))
+//@   let okIn = valid && nme == 0
+//@   let snap = esc(doc)
+//@   assigns nErr[t], lastErr[t], nLog[t], lastLog[t], nCleanup[t], lastCleanup[t]
+//@   assigns testEvents.items[erred], testEvents.items[added], testEvents.items[updated], testEvents.items[passed]
+//@   assigns testsRegistry.running[sp], testsRegistry.cleanup[sp], testsRegistry.running[sp][tname(t)], testsRegistry.cleanup[sp][tname(t)]
+//@   assigns fsx[sp], fsc[sp], fsdir, fswrites, alloc
+//@   ensures [invalid] !valid ==> failed && nowrite && ordinalTaken
+//@   ensures [matcher_errors] valid && nme > 0 ==> failed && nowrite && ordinalTaken
+//@   ensures [ordinal] true ==> ordinalTaken
+//@   ensures [one_outcome] true ==>
+//@        failed
+//@     || (dErr == 0 && dLog == 1 && lastLog[t] == box(addedMsg) && dFail == 0 && dAdd == 1 && dUpd == 0 && dPass == 0)
+//@     || (dErr == 0 && dLog == 1 && lastLog[t] == box(updatedMsg) && dFail == 0 && dAdd == 0 && dUpd == 1 && dPass == 0)
+//@     || (dErr == 0 && dLog == 0 && dFail == 0 && dAdd == 0 && dUpd == 0 && dPass == 1)
+//@   ensures [replay] true && okIn && hit && stored == snap ==> dPass == 1 && dErr == 0 && dLog == 0 && nowrite && fsx[sp]
+//@   ensures [mismatch] true && okIn && hit && stored != snap && noEND(stored) && !mayUpdate ==> failed && nowrite
+//@   ensures [missing_ro] true && okIn && !hit && !mayCreate ==> failed && nowrite
+//@   ensures [ci] isCI ==> nowrite && dAdd == 0 && dUpd == 0
+//@   ensures [created] true && dAdd == 1 ==> okIn && !hit && mayCreate && fsx[sp] && fsc[sp] == (old(fsx[sp]) ? F : "") + "\n" + id + "\n" + snap + "\n---\n"
+//@   ensures [updated] true && dUpd == 1 ==> okIn && hit && mayUpdate && stored != snap
+//@   ensures [equal_nowrite] true && okIn && hit && stored == snap ==> nowrite
+//@   ensures [locks] held[_m] == 0 && held[testsRegistry.Mutex] == 0 && held[testEvents.Mutex] == 0
+//@   ensures [config_immutable] (forall r Ref: old(alloc)[r] ==> heap(Config.filename)[r] == old(heap(Config.filename))[r] && heap(Config.snapsDir)[r] == old(heap(Config.snapsDir))[r] && heap(Config.extension)[r] == old(heap(Config.extension))[r] && heap(Config.update)[r] == old(heap(Config.update))[r] && heap(Config.json)[r] == old(heap(Config.json))[r])
+//@   ensures [config_pointees] (c.update != nil ==> *c.update == old(*c.update)) && (c.json != nil ==> c.json.Width == old(c.json.Width) && c.json.Indent == old(c.json.Indent) && c.json.SortKeys == old(c.json.SortKeys))
+//@
+//@ func (*Config).MatchYAML(c, t, input, matchers)
+//@   mode ctl
+//@   requires c != nil && t != nil
+//@   requires testEvents != nil && testEvents.items != nil
+//@   requires held[_m] == 0 && held[testEvents.Mutex] == 0
+//@   requires isLine(tname(t)) && !quiescent
+//@   let mayCreate = !isCI && (c.update == nil || *c.update)
+//@   let mayUpdate = !isCI && ((c.update != nil && *c.update) || (c.update == nil && updateVAR == "true"))
+//@   let dErr = nErr[t] - old(nErr[t])
+//@   let dLog = nLog[t] - old(nLog[t])
+//@   let dFail = testEvents.items[erred] - old(testEvents.items[erred])
+//@   let dAdd = testEvents.items[added] - old(testEvents.items[added])
+//@   let dUpd = testEvents.items[updated] - old(testEvents.items[updated])
+//@   let dPass = testEvents.items[passed] - old(testEvents.items[passed])
+//@   let failed = dErr == 1 && dLog == 0 && dFail == 1 && dAdd == 0 && dUpd == 0 && dPass == 0
+//@   let nowrite = fswrites == old(fswrites) && fsc[sp] == old(fsc[sp]) && fsx[sp] == old(fsx[sp])
+//@   requires testsRegistry != nil && testsRegistry.running != nil && testsRegistry.cleanup != nil && testsRegistry.running != testsRegistry.cleanup
+//@   requires held[testsRegistry.Mutex] == 0
+//@   requires testsRegistry.Mutex != testEvents.Mutex && testsRegistry.Mutex != _m && testEvents.Mutex != _m
+//@   let sp = snapPathSpec(c.snapsDir, c.filename, c.extension, tname(t), false, isTrimBathBuild, callerFile())
+//@   requires has(testsRegistry.running, sp) == has(testsRegistry.cleanup, sp)
+//@   requires has(testsRegistry.running, sp) ==> testsRegistry.running[sp] != nil && testsRegistry.cleanup[sp] != nil && testsRegistry.running[sp] != testsRegistry.cleanup[sp]
+//@   requires fsguard[sp] == _m
+//@   let k = old(testsRegistry.running[sp][tname(t)]) + 1
+//@   let id = fmtID(tname(t), k)
+//@   let F = old(fsc[sp])
+//@   let hit = old(fsx[sp]) && found(old(fsc[sp]), id)
+//@   let stored = body(F, id)
+//@   let ordinalTaken = testsRegistry.running[sp][tname(t)] == k && testsRegistry.cleanup[sp][tname(t)] == old(testsRegistry.cleanup[sp][tname(t)]) + 1
+//@   let valid = vyOK(input)
+//@   let doc = applyY(vyBytesOf(input), arr(matchers), len(matchers))
+//@   let nme = nerrY(vyBytesOf(input), arr(matchers), len(matchers))
+//@   let okIn = valid && nme == 0
+//@   let snap = esc(doc)
+//@   assigns nErr[t], lastErr[t], nLog[t], lastLog[t], nCleanup[t], lastCleanup[t]
+//@   assigns testEvents.items[erred], testEvents.items[added], testEvents.items[updated], testEvents.items[passed]
+//@   assigns testsRegistry.running[sp], testsRegistry.cleanup[sp], testsRegistry.running[sp][tname(t)], testsRegistry.cleanup[sp][tname(t)]
+//@   assigns fsx[sp], fsc[sp], fsdir, fswrites, alloc
+//@   ensures [invalid] !valid ==> failed && nowrite && ordinalTaken
+//@   ensures [matcher_errors] valid && nme > 0 ==> failed && nowrite && ordinalTaken
+//@   ensures [ordinal] true ==> ordinalTaken
+//@   ensures [one_outcome] true ==>
+//@        failed
+//@     || (dErr == 0 && dLog == 1 && lastLog[t] == box(addedMsg) && dFail == 0 && dAdd == 1 && dUpd == 0 && dPass == 0)
+//@     || (dErr == 0 && dLog == 1 && lastLog[t] == box(updatedMsg) && dFail == 0 && dAdd == 0 && dUpd == 1 && dPass == 0)
+//@     || (dErr == 0 && dLog == 0 && dFail == 0 && dAdd == 0 && dUpd == 0 && dPass == 1)
+//@   ensures [replay] true && okIn && hit && stored == snap ==> dPass == 1 && dErr == 0 && dLog == 0 && nowrite && fsx[sp]
+//@   ensures [mismatch] true && okIn && hit && stored != snap && noEND(stored) && !mayUpdate ==> failed && nowrite
+//@   ensures [missing_ro] true && okIn && !hit && !mayCreate ==> failed && nowrite
+//@   ensures [ci] isCI ==> nowrite && dAdd == 0 && dUpd == 0
+//@   ensures [created] true && dAdd == 1 ==> okIn && !hit && mayCreate && fsx[sp] && fsc[sp] == (old(fsx[sp]) ? F : "") + "\n" + id + "\n" + snap + "\n---\n"
+//@   ensures [updated] true && dUpd == 1 ==> okIn && hit && mayUpdate && stored != snap
+//@   ensures [equal_nowrite] true && okIn && hit && stored == snap ==> nowrite
+//@   ensures [locks] held[_m] == 0 && held[testsRegistry.Mutex] == 0 && held[testEvents.Mutex] == 0
+//@   ensures [config_immutable] (forall r Ref: old(alloc)[r] ==> heap(Config.filename)[r] == old(heap(Config.filename))[r] && heap(Config.snapsDir)[r] == old(heap(Config.snapsDir))[r] && heap(Config.extension)[r] == old(heap(Config.extension))[r] && heap(Config.update)[r] == old(heap(Config.update))[r] && heap(Config.json)[r] == old(heap(Config.json))[r])
+//@   ensures [config_pointees] (c.update != nil ==> *c.update == old(*c.update)) && (c.json != nil ==> c.json.Width == old(c.json.Width) && c.json.Indent == old(c.json.Indent) && c.json.SortKeys == old(c.json.SortKeys))
+//@
+//@ func MatchStandaloneSnapshot(t, input)
+//@   mode ctl
+//@   let c = defaultConfig
+//@   requires c != nil && t != nil
+//@   requires testEvents != nil && testEvents.items != nil
+//@   requires held[_m] == 0 && held[testEvents.Mutex] == 0
+//@   requires isLine(tname(t)) && !quiescent
+//@   let mayCreate = !isCI && (c.update == nil || *c.update)
+//@   let mayUpdate = !isCI && ((c.update != nil && *c.update) || (c.update == nil && updateVAR == "true"))
+//@   let dErr = nErr[t] - old(nErr[t])
+//@   let dLog = nLog[t] - old(nLog[t])
+//@   let dFail = testEvents.items[erred] - old(testEvents.items[erred])
+//@   let dAdd = testEvents.items[added] - old(testEvents.items[added])
+//@   let dUpd = testEvents.items[updated] - old(testEvents.items[updated])
+//@   let dPass = testEvents.items[passed] - old(testEvents.items[passed])
+//@   let failed = dErr == 1 && dLog == 0 && dFail == 1 && dAdd == 0 && dUpd == 0 && dPass == 0
+//@   let nowrite = fswrites == old(fswrites) && fsc[sp] == old(fsc[sp]) && fsx[sp] == old(fsx[sp])
+//@   requires standaloneTestsRegistry != nil && standaloneTestsRegistry.running != nil && standaloneTestsRegistry.cleanup != nil && standaloneTestsRegistry.running != standaloneTestsRegistry.cleanup
+//@   requires held[standaloneTestsRegistry.Mutex] == 0
+//@   requires standaloneTestsRegistry.Mutex != testEvents.Mutex
+//@   let gp = snapPathSpec(c.snapsDir, c.filename, c.extension, tname(t), true, isTrimBathBuild, callerFile())
+//@   let k = old(standaloneTestsRegistry.running[gp]) + 1
+//@   let sp = sprintf_d(gp, k)
+//@   requires fsguard[sp] == nil
+//@   let hit = old(fsx[sp])
+//@   let stored = old(fsc[sp])
+//@   let ordinalTaken = standaloneTestsRegistry.running[gp] == k && standaloneTestsRegistry.cleanup[gp] == old(standaloneTestsRegistry.cleanup[gp]) + 1
+//@   let snap = krSprint(input)
+//@   assigns nErr[t], lastErr[t], nLog[t], lastLog[t], nCleanup[t], lastCleanup[t]
+//@   assigns testEvents.items[erred], testEvents.items[added], testEvents.items[updated], testEvents.items[passed]
+//@   assigns standaloneTestsRegistry.running[gp], standaloneTestsRegistry.cleanup[gp]
+//@   assigns fsx[sp], fsc[sp], fsdir, fswrites, alloc
+//@   ensures [ordinal] ordinalTaken
+//@   ensures [one_outcome] true ==>
+//@        failed
+//@     || (dErr == 0 && dLog == 1 && lastLog[t] == box(addedMsg) && dFail == 0 && dAdd == 1 && dUpd == 0 && dPass == 0)
+//@     || (dErr == 0 && dLog == 1 && lastLog[t] == box(updatedMsg) && dFail == 0 && dAdd == 0 && dUpd == 1 && dPass == 0)
+//@     || (dErr == 0 && dLog == 0 && dFail == 0 && dAdd == 0 && dUpd == 0 && dPass == 1)
+//@   ensures [replay] true && hit && stored == snap ==> dPass == 1 && dErr == 0 && dLog == 0 && nowrite
+//@   ensures [mismatch] true && hit && stored != snap && !mayUpdate ==> failed && nowrite
+//@   ensures [missing_ro] true && !hit && !mayCreate ==> failed && nowrite
+//@   ensures [ci] isCI ==> nowrite && dAdd == 0 && dUpd == 0
+//@   ensures [created] dAdd == 1 ==> true && !hit && mayCreate && fsx[sp] && fsc[sp] == snap
+//@   ensures [updated] dUpd == 1 ==> true && hit && mayUpdate && stored != snap && fsx[sp] && fsc[sp] == snap
+//@   ensures [locks] held[standaloneTestsRegistry.Mutex] == 0 && held[testEvents.Mutex] == 0
+//@   ensures [config_immutable] (forall r Ref: old(alloc)[r] ==> heap(Config.filename)[r] == old(heap(Config.filename))[r] && heap(Config.snapsDir)[r] == old(heap(Config.snapsDir))[r] && heap(Config.extension)[r] == old(heap(Config.extension))[r] && heap(Config.update)[r] == old(heap(Config.update))[r] && heap(Config.json)[r] == old(heap(Config.json))[r])
+//@   ensures [config_pointees] (c.update != nil ==> *c.update == old(*c.update)) && (c.json != nil ==> c.json.Width == old(c.json.Width) && c.json.Indent == old(c.json.Indent) && c.json.SortKeys == old(c.json.SortKeys))
+//@
+//@ func (*Config).MatchStandaloneSnapshot(c, t, input)
+//@   mode ctl
+//@   requires c != nil && t != nil
+//@   requires testEvents != nil && testEvents.items != nil
+//@   requires held[_m] == 0 && held[testEvents.Mutex] == 0
+//@   requires isLine(tname(t)) && !quiescent
+//@   let mayCreate = !isCI && (c.update == nil || *c.update)
+//@   let mayUpdate = !isCI && ((c.update != nil && *c.update) || (c.update == nil && updateVAR == "true"))
+//@   let dErr = nErr[t] - old(nErr[t])
+//@   let dLog = nLog[t] - old(nLog[t])
+//@   let dFail = testEvents.items[erred] - old(testEvents.items[erred])
+//@   let dAdd = testEvents.items[added] - old(testEvents.items[added])
+//@   let dUpd = testEvents.items[updated] - old(testEvents.items[updated])
+//@   let dPass = testEvents.items[passed] - old(testEvents.items[passed])
+//@   let failed = dErr == 1 && dLog == 0 && dFail == 1 && dAdd == 0 && dUpd == 0 && dPass == 0
+//@   let nowrite = fswrites == old(fswrites) && fsc[sp] == old(fsc[sp]) && fsx[sp] == old(fsx[sp])
+//@   requires standaloneTestsRegistry != nil && standaloneTestsRegistry.running != nil && standaloneTestsRegistry.cleanup != nil && standaloneTestsRegistry.running != standaloneTestsRegistry.cleanup
+//@   requires held[standaloneTestsRegistry.Mutex] == 0
+//@   requires standaloneTestsRegistry.Mutex != testEvents.Mutex
+//@   let gp = snapPathSpec(c.snapsDir, c.filename, c.extension, tname(t), true, isTrimBathBuild, callerFile())
+//@   let k = old(standaloneTestsRegistry.running[gp]) + 1
+//@   let sp = sprintf_d(gp, k)
+//@   requires fsguard[sp] == nil
+//@   let hit = old(fsx[sp])
+//@   let stored = old(fsc[sp])
+//@   let ordinalTaken = standaloneTestsRegistry.running[gp] == k && standaloneTestsRegistry.cleanup[gp] == old(standaloneTestsRegistry.cleanup[gp]) + 1
+//@   let snap = krSprint(input)
+//@   assigns nErr[t], lastErr[t], nLog[t], lastLog[t], nCleanup[t], lastCleanup[t]
+//@   assigns testEvents.items[erred], testEvents.items[added], testEvents.items[updated], testEvents.items[passed]
+//@   assigns standaloneTestsRegistry.running[gp], standaloneTestsRegistry.cleanup[gp]
+//@   assigns fsx[sp], fsc[sp], fsdir, fswrites, alloc
+//@   ensures [ordinal] ordinalTaken
+//@   ensures [one_outcome] true ==>
+//@        failed
+//@     || (dErr == 0 && dLog == 1 && lastLog[t] == box(addedMsg) && dFail == 0 && dAdd == 1 && dUpd == 0 && dPass == 0)
+//@     || (dErr == 0 && dLog == 1 && lastLog[t] == box(updatedMsg) && dFail == 0 && dAdd == 0 && dUpd == 1 && dPass == 0)
+//@     || (dErr == 0 && dLog == 0 && dFail == 0 && dAdd == 0 && dUpd == 0 && dPass == 1)
+//@   ensures [replay] true && hit && stored == snap ==> dPass == 1 && dErr == 0 && dLog == 0 && nowrite
+//@   ensures [mismatch] true && hit && stored != snap && !mayUpdate ==> failed && nowrite
+//@   ensures [missing_ro] true && !hit && !mayCreate ==> failed && nowrite
+//@   ensures [ci] isCI ==> nowrite && dAdd == 0 && dUpd == 0
+//@   ensures [created] dAdd == 1 ==> true && !hit && mayCreate && fsx[sp] && fsc[sp] == snap
+//@   ensures [updated] dUpd == 1 ==> true && hit && mayUpdate && stored != snap && fsx[sp] && fsc[sp] == snap
+//@   ensures [locks] held[standaloneTestsRegistry.Mutex] == 0 && held[testEvents.Mutex] == 0
+//@   ensures [config_immutable] (forall r Ref: old(alloc)[r] ==> heap(Config.filename)[r] == old(heap(Config.filename))[r] && heap(Config.snapsDir)[r] == old(heap(Config.snapsDir))[r] && heap(Config.extension)[r] == old(heap(Config.extension))[r] && heap(Config.update)[r] == old(heap(Config.update))[r] && heap(Config.json)[r] == old(heap(Config.json))[r])
+//@   ensures [config_pointees] (c.update != nil ==> *c.update == old(*c.update)) && (c.json != nil ==> c.json.Width == old(c.json.Width) && c.json.Indent == old(c.json.Indent) && c.json.SortKeys == old(c.json.SortKeys))
+//@
+//@ func MatchStandaloneJSON(t, input, matchers)
+//@   mode ctl
+//@   let c = defaultConfig
+//@   requires c != nil && t != nil
+//@   requires testEvents != nil && testEvents.items != nil
+//@   requires held[_m] == 0 && held[testEvents.Mutex] == 0
+//@   requires isLine(tname(t)) && !quiescent
+//@   let mayCreate = !isCI && (c.update == nil || *c.update)
+//@   let mayUpdate = !isCI && ((c.update != nil && *c.update) || (c.update == nil && updateVAR == "true"))
+//@   let dErr = nErr[t] - old(nErr[t])
+//@   let dLog = nLog[t] - old(nLog[t])
+//@   let dFail = testEvents.items[erred] - old(testEvents.items[erred])
+//@   let dAdd = testEvents.items[added] - old(testEvents.items[added])
+//@   let dUpd = testEvents.items[updated] - old(testEvents.items[updated])
+//@   let dPass = testEvents.items[passed] - old(testEvents.items[passed])
+//@   let failed = dErr == 1 && dLog == 0 && dFail == 1 && dAdd == 0 && dUpd == 0 && dPass == 0
+//@   let nowrite = fswrites == old(fswrites) && fsc[sp] == old(fsc[sp]) && fsx[sp] == old(fsx[sp])
+//@   requires standaloneTestsRegistry != nil && standaloneTestsRegistry.running != nil && standaloneTestsRegistry.cleanup != nil && standaloneTestsRegistry.running != standaloneTestsRegistry.cleanup
+//@   requires held[standaloneTestsRegistry.Mutex] == 0
+//@   requires standaloneTestsRegistry.Mutex != testEvents.Mutex
+//@   let gp = snapPathSpec(c.snapsDir, c.filename, (c.extension == "" ? ".json" : c.extension), tname(t), true, isTrimBathBuild, callerFile())
+//@   let k = old(standaloneTestsRegistry.running[gp]) + 1
+//@   let sp = sprintf_d(gp, k)
+//@   requires fsguard[sp] == nil
+//@   let hit = old(fsx[sp])
+//@   let stored = old(fsc[sp])
+//@   let ordinalTaken = standaloneTestsRegistry.running[gp] == k && standaloneTestsRegistry.cleanup[gp] == old(standaloneTestsRegistry.cleanup[gp]) + 1
+//@   let valid = vjErrOf(input) == nil
+//@   let doc = applyJ(vjBytesOf(input), arr(matchers), len(matchers))
+//@   let nme = nerrJ(vjBytesOf(input), arr(matchers), len(matchers))
+//@   let okIn = valid && nme == 0
+//@   let snap = jsonSnapOf(doc, c.json == nil, c.json.Width, c.json.Indent, c.json.SortKeys)
+//@   assigns nErr[t], lastErr[t], nLog[t], lastLog[t], nCleanup[t], lastCleanup[t]
+//@   assigns testEvents.items[erred], testEvents.items[added], testEvents.items[updated], testEvents.items[passed]
+//@   assigns standaloneTestsRegistry.running[gp], standaloneTestsRegistry.cleanup[gp]
+//@   assigns fsx[sp], fsc[sp], fsdir, fswrites, alloc
+//@   ensures [invalid] !valid ==> failed && nowrite && ordinalTaken
+//@   ensures [matcher_errors] valid && nme > 0 ==> failed && nowrite && ordinalTaken
+//@   ensures [ordinal] ordinalTaken
+//@   ensures [one_outcome] true ==>
+//@        failed
+//@     || (dErr == 0 && dLog == 1 && lastLog[t] == box(addedMsg) && dFail == 0 && dAdd == 1 && dUpd == 0 && dPass == 0)
+//@     || (dErr == 0 && dLog == 1 && lastLog[t] == box(updatedMsg) && dFail == 0 && dAdd == 0 && dUpd == 1 && dPass == 0)
+//@     || (dErr == 0 && dLog == 0 && dFail == 0 && dAdd == 0 && dUpd == 0 && dPass == 1)
+//@   ensures [replay] okIn && hit && stored == snap ==> dPass == 1 && dErr == 0 && dLog == 0 && nowrite
+//@   ensures [mismatch] okIn && hit && stored != snap && !mayUpdate ==> failed && nowrite
+//@   ensures [missing_ro] okIn && !hit && !mayCreate ==> failed && nowrite
+//@   ensures [ci] isCI ==> nowrite && dAdd == 0 && dUpd == 0
+//@   ensures [created] dAdd == 1 ==> okIn && !hit && mayCreate && fsx[sp] && fsc[sp] == snap
+//@   ensures [updated] dUpd == 1 ==> okIn && hit && mayUpdate && stored != snap && fsx[sp] && fsc[sp] == snap
+//@   ensures [locks] held[standaloneTestsRegistry.Mutex] == 0 && held[testEvents.Mutex] == 0
+//@   ensures [config_immutable] (forall r Ref: old(alloc)[r] ==> heap(Config.filename)[r] == old(heap(Config.filename))[r] && heap(Config.snapsDir)[r] == old(heap(Config.snapsDir))[r] && heap(Config.extension)[r] == old(heap(Config.extension))[r] && heap(Config.update)[r] == old(heap(Config.update))[r] && heap(Config.json)[r] == old(heap(Config.json))[r])
+//@   ensures [config_pointees] (c.update != nil ==> *c.update == old(*c.update)) && (c.json != nil ==> c.json.Width == old(c.json.Width) && c.json.Indent == old(c.json.Indent) && c.json.SortKeys == old(c.json.SortKeys))
+//@
+//@ func (*Config).MatchStandaloneJSON(c, t, input, matchers)
+//@   mode ctl
+//@   requires c != nil && t != nil
+//@   requires testEvents != nil && testEvents.items != nil
+//@   requires held[_m] == 0 && held[testEvents.Mutex] == 0
+//@   requires isLine(tname(t)) && !quiescent
+//@   let mayCreate = !isCI && (c.update == nil || *c.update)
+//@   let mayUpdate = !isCI && ((c.update != nil && *c.update) || (c.update == nil && updateVAR == "true"))
+//@   let dErr = nErr[t] - old(nErr[t])
+//@   let dLog = nLog[t] - old(nLog[t])
+//@   let dFail = testEvents.items[erred] - old(testEvents.items[erred])
+//@   let dAdd = testEvents.items[added] - old(testEvents.items[added])
+//@   let dUpd = testEvents.items[updated] - old(testEvents.items[updated])
+//@   let dPass = testEvents.items[passed] - old(testEvents.items[passed])
+//@   let failed = dErr == 1 && dLog == 0 && dFail == 1 && dAdd == 0 && dUpd == 0 && dPass == 0
+//@   let nowrite = fswrites == old(fswrites) && fsc[sp] == old(fsc[sp]) && fsx[sp] == old(fsx[sp])
+//@   requires standaloneTestsRegistry != nil && standaloneTestsRegistry.running != nil && standaloneTestsRegistry.cleanup != nil && standaloneTestsRegistry.running != standaloneTestsRegistry.cleanup
+//@   requires held[standaloneTestsRegistry.Mutex] == 0
+//@   requires standaloneTestsRegistry.Mutex != testEvents.Mutex
+//@   let gp = snapPathSpec(c.snapsDir, c.filename, (c.extension == "" ? ".json" : c.extension), tname(t), true, isTrimBathBuild, callerFile())
+//@   let k = old(standaloneTestsRegistry.running[gp]) + 1
+//@   let sp = sprintf_d(gp, k)
+//@   requires fsguard[sp] == nil
+//@   let hit = old(fsx[sp])
+//@   let stored = old(fsc[sp])
+//@   let ordinalTaken = standaloneTestsRegistry.running[gp] == k && standaloneTestsRegistry.cleanup[gp] == old(standaloneTestsRegistry.cleanup[gp]) + 1
+//@   let valid = vjErrOf(input) == nil
+//@   let doc = applyJ(vjBytesOf(input), arr(matchers), len(matchers))
+//@   let nme = nerrJ(vjBytesOf(input), arr(matchers), len(matchers))
+//@   let okIn = valid && nme == 0
+//@   let snap = jsonSnapOf(doc, c.json == nil, c.json.Width, c.json.Indent, c.json.SortKeys)
+//@   assigns nErr[t], lastErr[t], nLog[t], lastLog[t], nCleanup[t], lastCleanup[t]
+//@   assigns testEvents.items[erred], testEvents.items[added], testEvents.items[updated], testEvents.items[passed]
+//@   assigns standaloneTestsRegistry.running[gp], standaloneTestsRegistry.cleanup[gp]
+//@   assigns fsx[sp], fsc[sp], fsdir, fswrites, alloc
+//@   ensures [invalid] !valid ==> failed && nowrite && ordinalTaken
+//@   ensures [matcher_errors] valid && nme > 0 ==> failed && nowrite && ordinalTaken
+//@   ensures [ordinal] ordinalTaken
+//@   ensures [one_outcome] true ==>
+//@        failed
+//@     || (dErr == 0 && dLog == 1 && lastLog[t] == box(addedMsg) && dFail == 0 && dAdd == 1 && dUpd == 0 && dPass == 0)
+//@     || (dErr == 0 && dLog == 1 && lastLog[t] == box(updatedMsg) && dFail == 0 && dAdd == 0 && dUpd == 1 && dPass == 0)
+//@     || (dErr == 0 && dLog == 0 && dFail == 0 && dAdd == 0 && dUpd == 0 && dPass == 1)
+//@   ensures [replay] okIn && hit && stored == snap ==> dPass == 1 && dErr == 0 && dLog == 0 && nowrite
+//@   ensures [mismatch] okIn && hit && stored != snap && !mayUpdate ==> failed && nowrite
+//@   ensures [missing_ro] okIn && !hit && !mayCreate ==> failed && nowrite
+//@   ensures [ci] isCI ==> nowrite && dAdd == 0 && dUpd == 0
+//@   ensures [created] dAdd == 1 ==> okIn && !hit && mayCreate && fsx[sp] && fsc[sp] == snap
+//@   ensures [updated] dUpd == 1 ==> okIn && hit && mayUpdate && stored != snap && fsx[sp] && fsc[sp] == snap
+//@   ensures [locks] held[standaloneTestsRegistry.Mutex] == 0 && held[testEvents.Mutex] == 0
+//@   ensures [config_immutable] (forall r Ref: old(alloc)[r] ==> heap(Config.filename)[r] == old(heap(Config.filename))[r] && heap(Config.snapsDir)[r] == old(heap(Config.snapsDir))[r] && heap(Config.extension)[r] == old(heap(Config.extension))[r] && heap(Config.update)[r] == old(heap(Config.update))[r] && heap(Config.json)[r] == old(heap(Config.json))[r])
+//@   ensures [config_pointees] (c.update != nil ==> *c.update == old(*c.update)) && (c.json != nil ==> c.json.Width == old(c.json.Width) && c.json.Indent == old(c.json.Indent) && c.json.SortKeys == old(c.json.SortKeys))
 //@
 // END-GENERATED-MATCH
